@@ -7,6 +7,30 @@ NOTES = ("All checks: ./check <ID> [--tier quick|thorough]; seed from VERIF_SEED
 NOT_APPLICABLE = {}
 
 CHECKS = {
+ "C05": {
+  "level": "exploration",
+  "technique": "property-based differential testing: every available back end x {prob, logprob, harness-defined, NSP, symbolic} semiring vs the default configuration and the reference semantics",
+  "text": "Generated programs are evaluated by every evaluatable that is available at run time under five semirings (the symbolic expression is evaluated numerically); all must agree with the default, which is anchored to the independent reference.",
+  "note": "PARTIAL: PySDD/dd are not installed, so sdd/sddx/fsdd/bdd/fbdd cannot run in this sandbox; only the d-DNNF route (default and 'ddnnf') is exercised. The check discovers back ends dynamically and lists the ones that ran.",
+ },
+ "C12": {
+  "level": "exploration",
+  "technique": "bounded-exhaustive grid + Hypothesis floats against the semiring laws, the log/probability homomorphism, numeric evaluation of symbolic expressions and the documented base-class defaults",
+  "text": "Commutativity, associativity, identities, annihilation, distributivity on a grid of probabilities (exhaustive triples) and random floats; log-probability as the logarithmic image of probability for plus/times/negate/normalize/value/ad_complement; symbolic expressions evaluated numerically; Semiring base defaults through minimal subclasses.",
+  "note": "Float tolerance 1e-9 abs+rel, respecting the code's documented thresholds (value < 1e-9 -> zero).",
+ },
+ "C16": {
+  "level": "exploration",
+  "technique": "bounded-exhaustive enumeration of documented arithmetic functions/operators and builtin call modes + Hypothesis expression trees against a reference returning the set of results admissible in SWI-Prolog 9 / Yap 6",
+  "text": "Every documented function over small ints / selected floats (all argument pairs), comparisons, and every supported mode of between/succ/plus/length/functor/arg/=../atom_number and the type tests are compared with a reference that admits both SWI and Yap where they differ; raw Python exceptions and complex results are failures.",
+  "note": "No SWI/Yap binary in the sandbox: the reference is a transcription of their documented semantics; everything uncertain is listed in UNCHECKED and not asserted. is_list on partial lists is a listed finding (pinned test expects it).",
+ },
+ "C28": {
+  "level": "exploration",
+  "technique": "round-trip property testing (pl2py . py2pl = id) over enumerated and Hypothesis values + differential check of problog_export functions called from generated programs",
+  "text": "Nested lists/tuples (length != 1) of ints, floats and strings incl. quotes go through py2pl/pl2py and must come back identical (types included); generated exported Python functions called via use_module must be seen from ProbLog as returning py2pl of their result.",
+  "note": "For -str outputs the atom whose name is the Python string is accepted as well as py2pl's string constant (what the repository's own extern test expects). Float rounding to 15 decimals and tuple-in-tail flattening are listed findings.",
+ },
  "C02": {
   "level": "exploration",
   "technique": "property-based testing: generated programs with cycles through negation, 3-way classification by a reference well-founded semantics",
